@@ -20,7 +20,7 @@ package iavl
 //@ func (*nodeDB).GetNode(ndb, nk) (res, err)
 //@   assumed persistence boundary (DESIGN §5): the bytes stored under a node key decode to the persisted subtree dbview(key); cache sharing is abstracted (the returned node is treated as a fresh object, committed nodes being immutable up to nframe)
 //@   requires ndb != nil
-//@   ensures err == nil ==> res != nil && fresh(res) && !inptr[res] && valid(res) && view(res) == dbview(c_ord(cntOf(nk))) && res.nodeKey != nil
+//@   ensures err == nil ==> res != nil && fresh(res) && !inptr[res] && valid(res) && view(res) == dbview(c_ord(cntOf(nk))) && res.nodeKey != nil && res.leftNode == nil && res.rightNode == nil
 //@   ensures nframe(old(heap(N)), heap(N), old(na))
 //@   modifies nodeDB.*[*], Statistics.*[*]
 //@   allocates Node NodeKey BM
@@ -33,7 +33,7 @@ package iavl
 //@   requires node.leftNode != nil ==> valid(node.leftNode)
 //@   ensures err == nil ==> res != nil && valid(res) && view(res) == old(lview(node))
 //@   ensures err == nil && old(node.leftNode) != nil ==> res == old(node.leftNode)
-//@   ensures err == nil && old(node.leftNode) == nil ==> fresh(res) && !inptr[res] && res.nodeKey != nil
+//@   ensures err == nil && old(node.leftNode) == nil ==> fresh(res) && !inptr[res] && res.nodeKey != nil && res.leftNode == nil && res.rightNode == nil
 //@   ensures old(node.leftNode) != nil ==> err == nil
 //@   ensures nframe(old(heap(N)), heap(N), old(na))
 //@   modifies nodeDB.*[*], Statistics.*[*]
@@ -44,38 +44,156 @@ package iavl
 //@   requires node.rightNode != nil ==> valid(node.rightNode)
 //@   ensures err == nil ==> res != nil && valid(res) && view(res) == old(rview(node))
 //@   ensures err == nil && old(node.rightNode) != nil ==> res == old(node.rightNode)
-//@   ensures err == nil && old(node.rightNode) == nil ==> fresh(res) && !inptr[res] && res.nodeKey != nil
+//@   ensures err == nil && old(node.rightNode) == nil ==> fresh(res) && !inptr[res] && res.nodeKey != nil && res.leftNode == nil && res.rightNode == nil
 //@   ensures old(node.rightNode) != nil ==> err == nil
 //@   ensures nframe(old(heap(N)), heap(N), old(na))
 //@   modifies nodeDB.*[*], Statistics.*[*]
 
+// clone: an uncommitted copy with both children in memory.  Only shape(node)
+// is required (children well-formed), so that a node whose stored height is
+// being recomputed can be cloned too.
 //@ func (*Node).clone(node, tree) (res, err)
 //@   props C01 C02 C09
-//@   requires node != nil && valid(node) && tree != nil && tree.ImmutableTree != nil && tree.ImmutableTree.ndb != nil
-//@   ensures [shape] err == nil ==> old(node.subtreeHeight) > 0 && res != nil && fresh(res) && !inptr[res] && valid(res) && view(res) == unver(old(view(node)))
-//@   ensures [fields] err == nil ==> res.nodeKey == nil && res.leftNode != nil && res.rightNode != nil && res.hash == nil && res.key == old(node.key) && res.leftNode < res && res.rightNode < res
+//@   requires node != nil && shape(node) && tree != nil && tree.ImmutableTree != nil && tree.ImmutableTree.ndb != nil
+//@   ensures [parts] err == nil ==> old(node.subtreeHeight) > 0 && res != nil && fresh(res) && !inptr[res] && shape(res) && lview(res) == old(lview(node)) && rview(res) == old(rview(node))
+//@   ensures [fields] err == nil ==> res.nodeKey == nil && res.leftNode != nil && res.rightNode != nil && res.hash == nil && res.key == old(node.key) && res.subtreeHeight == old(node.subtreeHeight) && res.size == old(node.size) && res.leftNode != res && res.rightNode != res
+//@   ensures [children] err == nil ==> valid(res.leftNode) && valid(res.rightNode) && view(res.leftNode) == old(lview(node)) && view(res.rightNode) == old(rview(node))
+//@   ensures [childorigin] err == nil ==> (old(node.leftNode) != nil && res.leftNode == old(node.leftNode)) || (res.leftNode >= old(na) && res.leftNode.leftNode == nil && res.leftNode.rightNode == nil)
+//@   ensures [childorigin2] err == nil ==> (old(node.rightNode) != nil && res.rightNode == old(node.rightNode)) || (res.rightNode >= old(na) && res.rightNode.leftNode == nil && res.rightNode.rightNode == nil)
+//@   ensures [shape] err == nil && old(valid(node)) ==> valid(res) && view(res) == unver(old(view(node)))
 //@   ensures [leaf] old(node.subtreeHeight) == 0 ==> err != nil
-//@   ensures [closed] err == nil ==> closed(res)
+//@   ensures [nilonerr] err != nil ==> res == nil
+//@   ensures [closed] err == nil ==> closed(res) && res.leftNode < res && res.rightNode < res
 //@   ensures [frame] nframe(old(heap(N)), heap(N), old(na))
 //@   modifies node.leftNode, node.rightNode, nodeDB.*[*], Statistics.*[*]
 
+// calcHeightAndSize: recompute the stored height and size of a node under
+// reconstruction from its (in-memory, valid) children.
 //@ func (*Node).calcHeightAndSize(node, t) (err)
 //@   props C01 C02 C11
 //@   requires node != nil && t != nil && t.ndb != nil
 //@   requires node.leftNode != nil && node.rightNode != nil && valid(node.leftNode) && valid(node.rightNode)
-//@   requires node.nodeKey == nil && node.leftNode != node && node.rightNode != node
-//@   requires !inptr[node] || (node.leftNode < node && node.rightNode < node && closed(node))
+//@   requires node.nodeKey == nil
+//@   requires indep(node.leftNode, node) && indep(node.rightNode, node)
 //@   requires hgt(view(node.leftNode)) <= 100 && hgt(view(node.rightNode)) <= 100
 //@   requires siz(view(node.leftNode)) <= 1152921504606846976 && siz(view(node.rightNode)) <= 1152921504606846976
 //@   ensures [noerr] err == nil
-//@   ensures [shape] err == nil ==> valid(node) && view(node) == Inner(cntOf(node.key), imax(hgt(old(view(node.leftNode))), hgt(old(view(node.rightNode)))) + 1, siz(old(view(node.leftNode))) + siz(old(view(node.rightNode))), nodeVer(node), old(view(node.leftNode)), old(view(node.rightNode)))
+//@   ensures [shape] err == nil ==> valid(node) && view(node) == mk(cntOf(node.key), old(view(node.leftNode)), old(view(node.rightNode)))
+//@   ensures [children] valid(node.leftNode) && valid(node.rightNode) && view(node.leftNode) == old(view(node.leftNode)) && view(node.rightNode) == old(view(node.rightNode))
 //@   ensures [frame] nframeX(old(heap(N)), heap(N), old(na), node)
 //@   modifies node.subtreeHeight, node.size, nodeDB.*[*], Statistics.*[*]
 
 //@ func (*Node).calcBalance(node, t) (b, err)
 //@   props C01 C02 C11
-//@   requires node != nil && t != nil && t.ndb != nil && valid(node) && node.subtreeHeight > 0
+//@   requires node != nil && t != nil && t.ndb != nil && shape(node) && node.subtreeHeight > 0
 //@   ensures err == nil ==> b == hgt(old(lview(node))) - hgt(old(rview(node)))
 //@   ensures old(node.leftNode) != nil && old(node.rightNode) != nil ==> err == nil
 //@   ensures nframe(old(heap(N)), heap(N), old(na))
 //@   modifies nodeDB.*[*], Statistics.*[*]
+
+// ---------------------------------------------------------------- mutable_tree.go: rotations and rebalancing
+
+//@ func (*MutableTree).rotateRight(tree, node) (res, err)
+//@   props C01 C02 C11
+//@   requires tree != nil && tree.ImmutableTree != nil && tree.ImmutableTree.ndb != nil
+//@   requires node != nil && shape(node) && node.subtreeHeight > 0
+//@   requires hgt(lview(node)) <= 99 && hgt(rview(node)) <= 99 && siz(lview(node)) <= 576460752303423488 && siz(rview(node)) <= 576460752303423488
+//@   ensures [nilonerr] err != nil ==> res == nil
+//@   ensures [inner] err == nil ==> isInner(old(lview(node)))
+//@   lemma [left] err == nil ==> res != nil && lview(res) == i_left(old(lview(node)))
+//@   lemma [right] err == nil ==> rview(res) == mk(cntOf(old(node.key)), i_right(old(lview(node))), old(rview(node)))
+//@   ensures [valid] err == nil ==> fresh(res) && !inptr[res] && valid(res) && res.nodeKey == nil && cntOf(res.key) == i_key(old(lview(node)))
+//@   ensures [shape] err == nil ==> view(res) == rotRk(cntOf(old(node.key)), old(lview(node)), old(rview(node)))
+//@   ensures [frame] nframe(old(heap(N)), heap(N), old(na))
+//@   modifies Node.leftNode[*], Node.rightNode[*], nodeDB.*[*], Statistics.*[*]
+
+//@ func (*MutableTree).rotateLeft(tree, node) (res, err)
+//@   props C01 C02 C11
+//@   requires tree != nil && tree.ImmutableTree != nil && tree.ImmutableTree.ndb != nil
+//@   requires node != nil && shape(node) && node.subtreeHeight > 0
+//@   requires hgt(lview(node)) <= 99 && hgt(rview(node)) <= 99 && siz(lview(node)) <= 576460752303423488 && siz(rview(node)) <= 576460752303423488
+//@   ensures [nilonerr] err != nil ==> res == nil
+//@   ensures [inner] err == nil ==> isInner(old(rview(node)))
+//@   lemma [right] err == nil ==> res != nil && rview(res) == i_right(old(rview(node)))
+//@   lemma [left] err == nil ==> lview(res) == mk(cntOf(old(node.key)), old(lview(node)), i_left(old(rview(node))))
+//@   ensures [valid] err == nil ==> fresh(res) && !inptr[res] && valid(res) && res.nodeKey == nil && cntOf(res.key) == i_key(old(rview(node)))
+//@   ensures [shape] err == nil ==> view(res) == rotLk(cntOf(old(node.key)), old(lview(node)), old(rview(node)))
+//@   ensures [frame] nframe(old(heap(N)), heap(N), old(na))
+//@   modifies Node.leftNode[*], Node.rightNode[*], nodeDB.*[*], Statistics.*[*]
+
+// balance: rebalance a node under reconstruction (children valid, stored
+// height/size up to date or not) — result is bal of the documented algorithm.
+//@ func (*MutableTree).balance(tree, node) (res, err)
+//@   props C01 C02 C11
+//@   requires tree != nil && tree.ImmutableTree != nil && tree.ImmutableTree.ndb != nil
+//@   requires node != nil && valid(node) && node.subtreeHeight > 0 && !inptr[node] && node.leftNode != nil && node.rightNode != nil
+//@   requires hgt(lview(node)) <= 98 && hgt(rview(node)) <= 98 && siz(lview(node)) <= 288230376151711744 && siz(rview(node)) <= 288230376151711744
+//@   ensures [committed] old(node.nodeKey) != nil ==> err != nil
+//@   ensures [nilonerr] err != nil ==> res == nil
+//@   ensures [fresh] err == nil ==> res != nil && (res == node || fresh(res)) && !inptr[res] && res.nodeKey == nil && valid(res)
+//@   lemma [same] err == nil && old(balf(view(node))) <= 1 && old(balf(view(node))) >= 0 - 1 ==> res == node && view(res) == old(view(node))
+//@   lemma [LL] err == nil && old(balf(view(node))) > 1 && old(balf(lview(node))) >= 0 ==> view(res) == rotR(old(view(node)))
+//@   lemma [LR] err == nil && old(balf(view(node))) > 1 && old(balf(lview(node))) < 0 ==> view(res) == rotR(setLeft(old(view(node)), rotL(old(lview(node)))))
+//@   lemma [RR] err == nil && old(balf(view(node))) < 0 - 1 && old(balf(rview(node))) <= 0 ==> view(res) == rotL(old(view(node)))
+//@   lemma [RL] err == nil && old(balf(view(node))) < 0 - 1 && old(balf(rview(node))) > 0 ==> view(res) == rotL(setRight(old(view(node)), rotR(old(rview(node)))))
+//@   ensures [shape] err == nil ==> view(res) == bal(old(view(node)))
+//@   ensures [frame] nframeX(old(heap(N)), heap(N), old(na), node)
+//@   modifies node.leftNode, node.rightNode, node.leftNodeKey, node.rightNodeKey, Node.leftNode[*], Node.rightNode[*], nodeDB.*[*], Statistics.*[*]
+
+// ---------------------------------------------------------------- logging (no effect on modelled state)
+//@ func (Logger).Debug(l, msg, keyVals)
+//@   assumed
+//@ func (Logger).Info(l, msg, keyVals)
+//@   assumed
+//@ func (Logger).Warn(l, msg, keyVals)
+//@   assumed
+//@ func (Logger).Error(l, msg, keyVals)
+//@   assumed
+
+// ---------------------------------------------------------------- uncommitted fast-node overlay (ghost: smhas/smval of the two sync.Maps)
+
+//@ func (*MutableTree).addUnsavedAddition(tree, key, node)
+//@   props C01 C07
+//@   requires tree != nil && tree.unsavedFastNodeAdditions != nil && tree.unsavedFastNodeRemovals != nil && tree.unsavedFastNodeAdditions != tree.unsavedFastNodeRemovals
+//@   ensures [add] smhas[tree.unsavedFastNodeAdditions] == store(old(smhas[tree.unsavedFastNodeAdditions]), ord(key), true)
+//@   ensures [val] smval[tree.unsavedFastNodeAdditions] == store(old(smval[tree.unsavedFastNodeAdditions]), ord(key), node)
+//@   ensures [rem] smhas[tree.unsavedFastNodeRemovals] == store(old(smhas[tree.unsavedFastNodeRemovals]), ord(key), false)
+//@   modifies smhas[tree.unsavedFastNodeAdditions], smval[tree.unsavedFastNodeAdditions], smhas[tree.unsavedFastNodeRemovals]
+
+//@ func (*MutableTree).addUnsavedRemoval(tree, key)
+//@   props C01 C07
+//@   requires tree != nil && tree.unsavedFastNodeAdditions != nil && tree.unsavedFastNodeRemovals != nil && tree.unsavedFastNodeAdditions != tree.unsavedFastNodeRemovals
+//@   ensures [add] smhas[tree.unsavedFastNodeAdditions] == store(old(smhas[tree.unsavedFastNodeAdditions]), ord(key), false)
+//@   ensures [rem] smhas[tree.unsavedFastNodeRemovals] == store(old(smhas[tree.unsavedFastNodeRemovals]), ord(key), true)
+//@   modifies smhas[tree.unsavedFastNodeAdditions], smhas[tree.unsavedFastNodeRemovals], smval[tree.unsavedFastNodeRemovals]
+
+// ---------------------------------------------------------------- mutable_tree.go: insertion
+
+//@ func (*MutableTree).recursiveSetLeaf(tree, node, key, value) (newSelf, updated, err)
+//@   props C01 C02 C11
+//@   requires tree != nil && tree.ImmutableTree != nil
+//@   requires tree.unsavedFastNodeAdditions != nil && tree.unsavedFastNodeRemovals != nil && tree.unsavedFastNodeAdditions != tree.unsavedFastNodeRemovals
+//@   requires node != nil && valid(node) && node.subtreeHeight == 0 && value != nil
+//@   ensures [noerr] err == nil
+//@   ensures [shape] newSelf != nil && fresh(newSelf) && !inptr[newSelf] && valid(newSelf) && newSelf.nodeKey == nil && view(newSelf) == ins(old(view(node)), cntOf(key), cntOf(value))
+//@   ensures [updated] updated == has(old(view(node)), ord(key))
+//@   ensures [inptr] old(inptr[node]) ==> inptr[node]
+//@   ensures [frame] nframe(old(heap(N)), heap(N), old(na))
+//@   modifies inptr[node], smhas[tree.unsavedFastNodeAdditions], smval[tree.unsavedFastNodeAdditions], smhas[tree.unsavedFastNodeRemovals]
+
+//@ func (*MutableTree).recursiveSet(tree, node, key, value) (newSelf, updated, err)
+//@   props C01 C02 C11
+//@   requires tree != nil && tree.ImmutableTree != nil && tree.ImmutableTree.ndb != nil
+//@   requires tree.unsavedFastNodeAdditions != nil && tree.unsavedFastNodeRemovals != nil && tree.unsavedFastNodeAdditions != tree.unsavedFastNodeRemovals
+//@   requires node != nil && valid(node) && value != nil
+//@   requires hgt(view(node)) <= 95 && siz(view(node)) <= 144115188075855872
+//@   ensures [nilonerr] err != nil ==> newSelf == nil
+//@   ensures [fresh] err == nil ==> newSelf != nil && fresh(newSelf) && !inptr[newSelf] && valid(newSelf) && newSelf.nodeKey == nil
+//@   ensures [updated] err == nil ==> updated == has(old(view(node)), ord(key))
+//@   ensures [shape] err == nil ==> view(newSelf) == ins(old(view(node)), cntOf(key), cntOf(value))
+//@   ensures [bounds] err == nil ==> hgt(view(newSelf)) <= hgt(old(view(node))) + 1 && siz(view(newSelf)) <= siz(old(view(node))) + 1
+//@   ensures [same] err == nil && updated ==> hgt(view(newSelf)) == hgt(old(view(node))) && siz(view(newSelf)) == siz(old(view(node)))
+//@   ensures [inptr] old(inptr[node]) ==> inptr[node]
+//@   ensures [frame] nframe(old(heap(N)), heap(N), old(na))
+//@   modifies Node.leftNode[*], Node.rightNode[*], inptr[node], smhas[tree.unsavedFastNodeAdditions], smval[tree.unsavedFastNodeAdditions], smhas[tree.unsavedFastNodeRemovals], nodeDB.*[*], Statistics.*[*]
+//@   decreases hgt(view(node))
